@@ -59,7 +59,7 @@ class C03(Check):
 
     def bounds(self, tier):
         return {'FP64 eigenvalue map': 'n = 1, |d| <= 2^44, rho = 1' if tier == 'quick' else
-                'n in {1,2}, |d| <= 2^44, rho in {0.1, 0.5, 1, 2, 10}',
+                'n = 1, |d| <= 2^44, rho in {0.1, 0.5, 1, 2, 10} (n = 2 with q = I is two independent copies plus 0*x terms; z3 does not finish it in 10 min and it is not claimed)',
                 'floor filter': 'scalar element + 2x2 / 3x3 matrices, eps symbolic >= 0 (binary64)',
                 'logdet': 'Theta=t*I_n, n in {1,40,100}' if tier == 'quick' else 'Theta=t*I_n, n in {1,40,100,200}'}
 
@@ -67,7 +67,7 @@ class C03(Check):
         q = tier == 'quick'
         cfgs = [Config('eig_real', self.eig_real, {}, nonlinear=True)]
         for rho in ([1.0] if q else [0.1, 0.5, 1.0, 2.0, 10.0]):
-            for n in ([1] if q else [1, 2]):
+            for n in [1]:
                 cfgs.append(Config('eig_fp64_n%d_rho%s' % (n, rho), self.eig_fp, {'n': n, 'rho': rho},
                                    prove_timeout_ms=600000, branch_timeout_ms=120000, nonlinear=True))
         for n in ([1, 2, 3]):
